@@ -25,6 +25,7 @@ type hist struct {
 	w    *progs.World
 	ops  []progs.Op
 	omit bool
+	scan bool // a history of directory scans (C25S)
 }
 
 func genHistory(r *vlib.Rand) hist {
@@ -142,6 +143,8 @@ func reconcile(h hist, c *progs.Case) (out []finding, interesting bool, want map
 			default:
 				get(op.Prog).loads++
 			}
+		case "scan":
+			scanEvents(op, prev, cur, get, kinds)
 		case "unload":
 			if running(prev, op.Prog) != nil {
 				get(op.Prog).unloads++
@@ -214,11 +217,25 @@ func main() {
 	for i := 0; i < n; i++ {
 		hs = append(hs, genHistory(rng.Fork()))
 	}
+	nscan := 40
+	if a.Thorough() {
+		nscan = 600
+	}
+	for i := 0; i < nscan; i++ {
+		h := genScanHistory(rng.Fork())
+		h.scan = true
+		hs = append(hs, h)
+	}
 	for _, h := range hs {
 		c := h.w.Run(h.ops, h.omit, true)
 		fs, interesting := check(h, c)
 		id := out.NextID()
-		out.Add("(C25L "+h.w.CoqLCase(id, c)+")", c, interesting)
+		if h.scan {
+			c.Note = "scan"
+			out.Add("(C25S "+h.w.CoqDCase(id, c)+")", c, interesting)
+		} else {
+			out.Add("(C25L "+h.w.CoqLCase(id, c)+")", c, interesting)
+		}
 		for _, op := range c.Ops {
 			switch {
 			case op.K == "load" && op.Err == "":
